@@ -321,6 +321,10 @@ func init() {
 				vtime.Set(vtime.Base)
 				fresh[i] = c16Probe(e, 0)
 				e.Close()
+				// independent sanity of the reference itself: every menu configuration routes at least one probe
+				if !strings.Contains(fresh[i], ": 200 ") && c.Shard == 0 {
+					c.Violation("bfs-updates", "fresh-start-serves-nothing", fmt.Sprintf("an instance freshly started with menu configuration %d answers no probe with 200:\n%s", i, trunc([]byte(fresh[i]))), nil, map[string]int{"config": i}, nil)
+				}
 			}
 			procEnv = nil
 			depth := 3
